@@ -40,6 +40,14 @@ thread_local! {
     static PENDING: RefCell<Vec<Ev>> = const { RefCell::new(Vec::new()) };
     /// Calls of the sentinel panic hook.
     static SENTINEL: Cell<usize> = const { Cell::new(0) };
+    /// Every item of the current execution is kept alive until it ends, so that a
+    /// `Source` address is never reused within one execution (pointer identity is
+    /// the only way to tell equal-by-value entities apart).
+    static KEEPALIVE: RefCell<Vec<crate::spec::RawItem>> = const { RefCell::new(Vec::new()) };
+}
+
+pub fn keep_alive(item: &crate::spec::RawItem) {
+    KEEPALIVE.with(|k| k.borrow_mut().push(item.clone()));
 }
 
 pub fn record_event(ev: Ev) {
@@ -115,6 +123,7 @@ impl Subject for StreamSubject {
         match self.stream.poll_next_unpin(cx) {
             Poll::Ready(Some(item)) => {
                 record_event(canon::canon(&item));
+                keep_alive(&item);
                 if let Some(s) = self.sink.as_mut() {
                     s(item);
                 }
@@ -234,6 +243,7 @@ pub fn execute(
 ) -> Trace {
     hs::reset(cfg.plan.clone());
     PENDING.with(|p| p.borrow_mut().clear());
+    KEEPALIVE.with(|k| k.borrow_mut().clear());
     cv::clock_enable();
     cv::idle_limit(IDLE_LIMIT);
     install_sentinel();
